@@ -13,7 +13,9 @@ static inline size_t vstr_size(const vstr* s) { return s->n; }
 static inline size_t vstr_length(const vstr* s) { return s->n; }
 static inline _Bool vstr_empty(const vstr* s) { return s->n == 0; }
 static inline const char* vstr_c_str(const vstr* s) { return s->d; }
-static inline char vstr_at(const vstr* s, size_t i) { return s->d[i]; }
+/* operator[] (const): index == size() reads the terminator, beyond is undefined behaviour => asserted.  (CBMC's own bounds check converts the
+ * index to a signed type and only checks the upper bound, so an index that wrapped below zero would pass it.) */
+static inline char vstr_at(const vstr* s, size_t i) { __CPROVER_assert(i <= s->n, "[C20] std::string::operator[] index <= size()"); return s->d[i <= VSTR_CAP ? i : 0]; }
 /* substr of exactly the std semantics for pos <= size (pos > size throws in C++: asserted) */
 static inline vstr vstr_substr(const vstr* s, size_t pos, size_t len) {
   vstr r;
